@@ -34,12 +34,14 @@ CONSTANTS
     ConfStrict              \* FALSE: solved iff conf >= t (the code); TRUE: mutant conf > t
 
 Sign == {-1, 0, 1}
-Rxn  == [dC : Sign, dX : Sign]
+XSign == {-1, 0, 1, 2}      \* 2: the remaining imbalance has entries of both signs
+Rxn  == [dC : Sign, dX : XSign]
 Absent == "ABSENT"
 
 Balanced(c) == c.dC = 0 /\ c.dX = 0
 CLabel(c) == IF c.dC = 0 THEN "balanced" ELSE IF c.dC > 0 THEN "products" ELSE "reactants"
 Unb(c) == IF Balanced(c) THEN "Balance"
+          ELSE IF c.dX = 2 THEN "Both"
           ELSE IF c.dC >= 0 /\ c.dX >= 0 THEN "Products"
           ELSE IF c.dC <= 0 /\ c.dX <= 0 THEN "Reactants"
           ELSE "Both"
@@ -106,21 +108,22 @@ InputValidate == pc = "input_validate" /\ Validate("input-balanced", TRUE, FALSE
 (***************************************************************************)
 RBOutcomes ==
     LET u == Unb(cur) IN
-    IF clabel # "balanced" THEN
-        { [cur |-> cur, added |-> added, applied |-> 0, solvedCnt |-> 0, bal |-> 0] }
-    ELSE IF u = "Balance" THEN
-        { [cur |-> cur, added |-> added, applied |-> 0, solvedCnt |-> 0, bal |-> 1] }
+    IF u = "Balance" THEN
+        { [cur |-> cur, added |-> added, applied |-> 0, solvedCnt |-> 0,
+           bal |-> IF clabel = "balanced" THEN 1 ELSE 0] }
     ELSE
-        \* two-sided: the both-side conversion may append water to the products in
-        \* place (never balancing by itself) and may or may not turn the row into a
-        \* one-sided one; one-sided: the imputer may find a completion (any result)
-        LET waterOpts == IF u = "Both" /\ added < MaxAdded THEN {TRUE, FALSE} ELSE {FALSE}
+        \* Two-sided imbalance (as the code classifies it after its both-side conversion; the
+        \* model does not second-guess that classification): water may be appended to the
+        \* products IN PLACE, for rows of ANY carbon label (rule_based.py:69-93 runs before the
+        \* carbon filter), never balancing by itself. Only rows whose stored carbon label is
+        \* "balanced" are handed to the imputer, which may find a completion (any result).
+        LET waterOpts == IF added < MaxAdded THEN {TRUE, FALSE} ELSE {FALSE}
         IN UNION { LET a1 == IF w THEN added + 1 ELSE added
                        curW == IF w THEN {c \in Rxn : ~Balanced(c)} ELSE {cur}
                    IN UNION { {[cur |-> c1, added |-> a1, applied |-> ap, solvedCnt |-> 0, bal |-> 0]
-                                  : ap \in (IF u = "Both" THEN {0, 1} ELSE {1})}
+                                  : ap \in (IF clabel = "balanced" THEN {0, 1} ELSE {0})}
                               \cup
-                              (IF a1 < MaxAdded
+                              (IF clabel = "balanced" /\ a1 < MaxAdded
                                THEN {[cur |-> c2, added |-> a1 + 1, applied |-> 1, solvedCnt |-> 1, bal |-> 0]
                                         : c2 \in Rxn}
                                ELSE {})
@@ -172,7 +175,7 @@ MCSImpute ==
             \/ \* success: only without a previous issue, never with a reactant-side
                \* carbon deficit, and only when the result is carbon balanced
                /\ issue = "" /\ clabel \in {"products", "balanced"} /\ added < MaxAdded
-               /\ \E x \in Sign : cur' = [dC |-> 0, dX |-> x]
+               /\ \E x \in XSign : cur' = [dC |-> 0, dX |-> x]
                /\ added' = added + 1
                /\ stats' = [stats EXCEPT !.mcs_applied = 1, !.mcs_solved = 1]
                /\ UNCHANGED issue
